@@ -585,6 +585,92 @@ def klce_program(arg):
     return res
 
 
+# ------------------------------------------------------------------ indicators just outside their set
+def tiny_cases():
+    """(space descriptor, layout, program, b, d): b on the boundary of the set, d an outward direction (the
+    specification decides that the WHOLE ray b + t d, t > 0, is outside: FuncSem!OutsideRay)."""
+    H = Fraction(1, 2)
+    out = []
+    spaces = [(('rn', 1, 3, [1] * 3), 0, 1), (('rnw', 1, 4, [4] * 4), 1, H), (('discr', 1, 4, [2] * 4), 2, H),
+              (('discr', 1, 3, [H] * 3), 0, 1), (('power', 2, 2, [2] * 4), 1, H)]
+    for spd, layout, r in spaces:
+        kind, m, n, W = spd
+        N = m * n
+        e = lambda i, s=1: [Fraction(s) if j == i else Fraction(0) for j in range(N)]
+        alt = [Fraction(1) if j % 2 == 0 else Fraction(-1, 2) for j in range(N)]
+        zero = [Fraction(0)] * N
+        progs = []
+        for cst in (0, 1):
+            progs += [(mkf('IndZero', 0, cst), zero, e(i)) for i in (0, N - 1)]
+        progs += [(mkf('Translate', u=alt, args=[mkf('IndZero')]), alt, e(1, -1))]
+        top = [Fraction(2)] + [Fraction(0)] * (N - 2) + [Fraction(-1)]
+        progs += [(mkf('IndBox', -1, 2), top, e(0)), (mkf('IndBox', -1, 2), top, e(N - 1, -1)),
+                  (mkf('IndBox', 1, 1), [Fraction(1)] * N, e(1)),
+                  (mkf('IndNonneg'), e(1), e(0, -1))]
+        binf = [Fraction(1), Fraction(-1, 2)] + [Fraction(0)] * (N - 2)
+        progs += [(mkf('IndBallInf'), binf, binf)]
+        if kind != 'power':
+            w = Fraction(W[0])
+            b1 = [1 / w] + [Fraction(0)] * (N - 1)
+            b1b = [1 / (2 * w), -1 / (2 * w)] + [Fraction(0)] * (N - 2)
+            progs += [(mkf('IndBall1'), b1, b1), (mkf('IndBall1'), b1b, b1b)]
+        # a point of W-norm 1 with dyadic entries
+        w = Fraction(W[0])
+        b2 = {1: e(0), 4: e(0, H), 2: [H, H] + [Fraction(0)] * (N - 2), H: [Fraction(1), Fraction(1)] + [Fraction(0)] * (N - 2)}[w]
+        progs += [(mkf('IndBall2'), b2, b2)]
+        if kind == 'power':
+            g = [Fraction(1), Fraction(0), Fraction(0), Fraction(0)]          # |x(1)|_p = 1 for every p
+            progs += [(dict(mkf('IndGroupBall'), s=s_), g, g) for s_ in ([0, 1], [1, 1], [1, 0])]
+        # conjugates of constant / zero / affine / linear functionals: dom f* is a single point
+        progs += [(mkf('Conj', args=[mkf('Const', 0, 3)]), zero, e(0)), (mkf('Conj', args=[mkf('Const', 0, 0)]), zero, e(N - 1, -1)),
+                  (mkf('Conj', args=[mkf('Quad', 0, 1, u=alt)]), alt, e(0)), (mkf('Conj', args=[mkf('Quad', 0, 0, u=alt)]), alt, e(1, -1))]
+        for prog, b, d in progs:
+            out.append((spd, layout, prog, b, d))
+    return out
+
+
+def tiny_program(arg):
+    idx, seed = arg
+    spd, layout, prog, b, d = tiny_cases()[idx]
+    kind, m, n, W = spd
+    sp = fu.sp_desc(kind, m, n, W)
+    res = _new_res()
+    try:
+        B = fu.Built(sp, prog, 0, layout=layout)
+    except (NotImplementedError, fu.Unbuildable):
+        return res
+    res['classes'] |= fu.class_names(B.func)
+    q = lambda vs: [fu.qj(Fraction(v)) for v in vs]
+    radial = (d == b)
+    for k in (30, 40):
+        t = 2.0 ** -k
+        pt = [float(bi) * (1 + t) for bi in b] if radial else [float(bi) + t * float(di) for bi, di in zip(b, d)]
+        try:
+            with np.errstate(all='ignore'):
+                v = float(B.func(B.el(pt)))
+        except Exception as e:
+            res['viol'].append((fu.signature(sp, prog, 'call-raises', {'error': type(e).__name__}),
+                                {'stage': 'tiny', 'case': idx, 'sp': sp, 'f': prog, 'error': str(e)[:200]}))
+            break
+        res['counts'].append(([prog, kind, 'outside', q(b), q(d), k], True))
+        det = {'stage': 'tiny', 'case': idx, 'sp': sp, 'f': prog, 'b': q(b), 'd': q(d), 'k': k, 'layout': layout,
+               'observed': {'point': pt, 'value': v}}
+        res['events'].append(({'k': 'outside', 'sp': sp, 'f': prog, 'b': q(b), 'd': q(d), 'e': k,
+                               'fin': 1 if math.isfinite(v) else 0}, det))
+        # Fenchel-Young inequality with a LARGE primal point: f(x) + f*(y) >= <x, y> (observed numbers)
+        if prog['op'] == 'Conj':
+            f0 = fu.Built(sp, prog['args'][0], 0, layout=layout)
+            for s in (10, 20):
+                x = B.el([2.0 ** s * (1 if i % 2 == 0 else -1) * (1 if float(d[i % len(d)]) >= 0 else -1) for i in range(len(b))])
+                y = B.el(pt)
+                lhs, rhs = float(f0.func(x)) + v, float(x.inner(y))
+                res['counts'].append(([prog, kind, 'fy-large', q(b), q(d), k, s], True))
+                if math.isfinite(lhs) and lhs < rhs - SLACK * max(1.0, abs(lhs), abs(rhs)):
+                    res['viol'].append((fu.signature(sp, prog, 'fenchel-young-inequality', {'at': 'large-x-tiny-y'}),
+                                        dict(det, observed={'f(x)+f*(y)': lhs, '<x,y>': rhs, 'scale': s})))
+    return res
+
+
 # ------------------------------------------------------------------ parametrised conjugate pairs (relational)
 def _dual_vec(xv, w, p):
     """The Hoelder-dual direction of a vector for the p-norm with measure w: <x, y>_w = |x|_p and |y|_q = 1.
@@ -745,7 +831,8 @@ def driver_jobs(seed, quick):
     return [(driver_program, [(spd, f, seed, 2 if quick else 6, i) for i, (spd, f) in enumerate(dprogs)]),
             (pair_program, [(i, seed, 2 if quick else 8) for i in range(len(pair_recipes()))]),
             (user_program, [(i, seed, 2 if quick else 6) for i in range(len(user_recipes()))]),
-            (klce_program, [(i, seed) for i in range(3)])]
+            (klce_program, [(i, seed) for i in range(3)]),
+            (tiny_program, [(i, seed) for i in range(len(tiny_cases()))])]
 
 
 # ------------------------------------------------------------------ check
@@ -846,6 +933,14 @@ def run(ctx):
 
 def replay(body):
     d = body['detail']
+    if d['stage'].endswith('tiny'):
+        res = tiny_program((d['case'], body.get('seed', 0)))
+        bad = bool(res['viol'])
+        if not bad:
+            from .c09 import _tlc_rejects
+            bad = _tlc_rejects([e for e, _ in res['events']])
+        print('REPRODUCED' if bad else 'NOT-REPRODUCED')
+        return 1 if bad else 0
     if d['stage'].endswith('pair'):
         res = pair_program((d['recipe'], body.get('seed', 0), 2))
         hit = [s for s, _ in res['viol'] if s['clause'] == body['signature']['clause']]
